@@ -242,7 +242,11 @@ func runC07(sc C07Sc, c *kit.Case) *kit.Violation {
 				}
 			}
 		}
-		if n, want := sv.S.Stats().OutstandingTransactions, pendingCount(); n != want {
+		st, sv1, ok := sv.stats(c, "C07", what)
+		if !ok {
+			return sv1
+		}
+		if n, want := st.OutstandingTransactions, pendingCount(); n != want {
 			// a query that has just returned deregisters under the server lock before returning, so this is exact
 			return kit.Violatef("C07:pending-transactions-disagree", "%s: the node reports %d outstanding transactions, the model %d", what, n, want)
 		}
